@@ -634,11 +634,45 @@ func (c16EchoCB) OnNewStream(s *Stream) {
 }
 
 // api <file|memfd> <sessions> <rounds>: echo rounds through pooled streams, one session lost and healed, everything closed
+// c16LogBuf keeps what the library logged during an API-level scenario; a failure report quotes its warnings and errors
+type c16LogBuf struct {
+	mu sync.Mutex
+	b  bytes.Buffer
+}
+
+func (l *c16LogBuf) Write(p []byte) (int, error) {
+	l.mu.Lock()
+	defer l.mu.Unlock()
+	if l.b.Len() < 1<<20 {
+		l.b.Write(p)
+	}
+	return len(p), nil
+}
+
+func (l *c16LogBuf) tail(n int) string {
+	l.mu.Lock()
+	defer l.mu.Unlock()
+	var keep []string
+	for _, ln := range strings.Split(l.b.String(), "\n") {
+		if strings.Contains(ln, "Error") || strings.Contains(ln, "Warn") {
+			if i := strings.Index(ln, ".go:"); i > 12 {
+				ln = ln[i-12:]
+			}
+			keep = append(keep, strings.TrimSpace(strings.ReplaceAll(strings.ReplaceAll(ln, "\x1b[0m", ""), "\x1b[9", "")))
+		}
+	}
+	if len(keep) > n {
+		keep = keep[len(keep)-n:]
+	}
+	return strings.Join(keep, " // ")
+}
+
 func c16Api(f []string) vResult {
 	res := vResult{noModel: true, out: []string{"done"}}
+	lb := &c16LogBuf{}
 	setFail := func(k, w string) {
 		if res.specFail == "" {
-			res.specFail, res.key = w, k
+			res.specFail, res.key = w+" [library log: "+lb.tail(10)+"]", k
 		}
 	}
 	mt := MemMapTypeDevShmFile
@@ -650,7 +684,20 @@ func c16Api(f []string) vResult {
 		res.out = []string{"bad-op"}
 		return res
 	}
-	internalLogger = &logger{"", io.Discard, 3}
+	// the rebuild interval: users cannot set it (60 s); well above the event loop's 1 s idle tick by default, so that the lost
+	// session's clean-up on BOTH ends (which removes the queue file by name) is over before a session of the same name is
+	// created again; a fifth field asks for a shorter one (the rebuild then meets the old session's leftovers)
+	interval := 1500 * time.Millisecond
+	if len(f) == 5 {
+		interval = time.Duration(vAtoi(f[4])) * time.Millisecond
+		if interval < 10*time.Millisecond || interval > 5*time.Second {
+			res.out = []string{"bad-op"}
+			return res
+		}
+	}
+	internalLogger = &logger{"", lb, 3}
+	level = levelWarn
+	defer func() { level = levelNoPrint; internalLogger = &logger{"", io.Discard, 3} }()
 	n := atomic.AddUint64(&c16ApiSeq, 1)
 	prefix := fmt.Sprintf("/dev/shm/verif_api_%d_%d", os.Getpid(), n)
 	path := fmt.Sprintf("/tmp/verif_api_%d_%d.sock", os.Getpid(), n)
@@ -662,6 +709,7 @@ func c16Api(f []string) vResult {
 	runtime.GC()
 	fd0, maps0 := c12CountFds(), c12CountMaps(prefix)
 	lcfg := &ListenerConfig{Config: c12Config(prefix+"_srv", mt), Network: "unix", ListenPath: path}
+	lcfg.Config.LogOutput = lb
 	ln, err := NewListener(c16EchoCB{}, lcfg)
 	if err != nil {
 		setFail("setup", "NewListener: "+err.Error())
@@ -673,7 +721,8 @@ func c16Api(f []string) vResult {
 	scfg.Config = c12Config(prefix, mt)
 	scfg.Network, scfg.Address = "unix", path
 	scfg.SessionNum = nsess
-	scfg.rebuildInterval = 50 * time.Millisecond
+	scfg.Config.LogOutput = lb
+	scfg.rebuildInterval = interval
 	if os.Getenv("VERIF_DEBUG") != "" {
 		vNewClientSessionHook = func(sessionID int, epochID, randID uint64, config *SessionManagerConfig) (*Session, error) {
 			cs, err := newClientSession(sessionID, epochID, randID, config)
@@ -705,12 +754,15 @@ func c16Api(f []string) vResult {
 		bufferManagers.Unlock()
 	}
 	dbgRef("after NewSessionManager")
+	var echoSess *Session // the session of the stream the last echo used
+	var setFail0 = setFail
 	echo := func(tag string) bool {
 		st, err := sm.GetStream()
 		if err != nil {
 			setFail("api-call-fails", tag+": GetStream: "+err.Error())
 			return false
 		}
+		echoSess = st.Session()
 		body := []byte(fmt.Sprintf("%s-payload-%d", tag, n))
 		msg := append([]byte{byte(len(body)), byte(len(body) >> 8), 0, 0}, body...)
 		st.SetDeadline(time.Now().Add(8 * time.Second))
@@ -764,8 +816,37 @@ func c16Api(f []string) vResult {
 				setFail("healthy-session-replaced", fmt.Sprintf("pool %d was healthy, yet its session was replaced when pool 0 lost its session", i+1))
 			}
 		}
+		// a replacement can itself be lost (e.g. when it was created while the old session's clean-up on the other end had
+		// not yet removed the queue file of the same name): that is one more loss, which must heal the same way; what may
+		// not happen is that calls keep failing on sessions that are alive, or hang
+		relost := 0
 		for r := 0; r < 2*nsess*int(sessionRoundRobinThreshold) && ok && r < 40; r++ {
-			ok = echo(fmt.Sprintf("after-heal-%d", r))
+			var held struct{ w, k string }
+			setFail = func(k, w string) { held.k, held.w = k, w }
+			good := echo(fmt.Sprintf("after-heal-%d", r))
+			setFail = setFail0
+			if good && held.k == "" {
+				continue
+			}
+			if held.k == "api-call-fails" && echoSess != nil && echoSess.IsClosed() && relost < 3 {
+				relost++
+				dead := echoSess
+				if !c19WaitFor(10*time.Second, func() bool {
+					for _, p := range sm.pools {
+						if ps := p.Session(); ps == dead || ps == nil || ps.IsClosed() || !ps.IsHealthy() {
+							return false
+						}
+					}
+					return true
+				}) {
+					setFail("not-healed", "a replacement session was lost in turn; 10 s later its pool still has no working session")
+					ok = false
+				}
+				res.tags = append(res.tags, "replacement-lost-again")
+				continue
+			}
+			setFail(held.k, held.w)
+			ok = false
 		}
 	}
 	if os.Getenv("VERIF_DEBUG") != "" {
@@ -821,7 +902,7 @@ func c16Api(f []string) vResult {
 		setFail("close-leaves-resources", fmt.Sprintf("manager and listener closed, yet %d descriptor(s) more than before, %d mapping(s) and %d file(s) remain: %v", fd1-fd0, m1-maps0, fl, left))
 	}
 	os.Remove(path)
-	res.tags = []string{"api-level-echo-heal-close"}
+	res.tags = append(res.tags, "api-level-echo-heal-close")
 	return res
 }
 
@@ -1023,7 +1104,7 @@ func c16Exec(ops []string) vResult {
 		}
 	}
 	if len(ops) == 1 && strings.HasPrefix(ops[0], "api ") {
-		if f := vFields(ops[0]); len(f) == 4 {
+		if f := vFields(ops[0]); len(f) == 4 || len(f) == 5 {
 			return c16Api(f)
 		}
 	}
@@ -1092,6 +1173,9 @@ func c16Gen(r *rand.Rand, tier string, idx int, prop string) []string {
 		return []string{fmt.Sprintf("apihot %s %d %d", []string{"file", "file", "memfd"}[r.Intn(3)], 1+r.Intn(2), 150+r.Intn(91))}
 	}
 	if prop == "C17" && idx%200 == 77 {
+		if r.Intn(3) == 0 {
+			return []string{fmt.Sprintf("api %s %d %d %d", []string{"file", "memfd"}[r.Intn(2)], 1+r.Intn(3), 1+r.Intn(4), []int{50, 200}[r.Intn(2)])}
+		}
 		return []string{fmt.Sprintf("api %s %d %d", []string{"file", "memfd"}[r.Intn(2)], 1+r.Intn(3), 1+r.Intn(4))}
 	}
 	var ops []string
